@@ -106,8 +106,11 @@ def h_diff(kind, span, y2c=None, dy=None, micro=True, md2=None, sameday=False):
         o1 = dt1.toordinal()
         same = S.eq(back.toordinal(), o1)
         if withtime:
-            bs = S.add(S.mulc(back.hour, 3600), S.mulc(back.minute, 60), back.second)
-            same = S.and_(same, S.eq(bs, s1), S.eq(back.microsecond, u1))
+            if isinstance(back, datetime.datetime):
+                bs = S.add(S.mulc(back.hour, 3600), S.mulc(back.minute, 60), back.second)
+                same = S.and_(same, S.eq(bs, s1), S.eq(back.microsecond, u1))
+            else:       # a plain date stands for its midnight (the conversion relativedelta itself applies to a date operand)
+                same = S.and_(same, S.eq(s1, 0), S.eq(u1, 0))
         ctx.check(same, "dt2 + relativedelta(dt1, dt2) != dt1", key="inverse")
         # maximality of the whole-month part: the residual duration does not change sign against the month shift
         # and one more month in the direction of dt1 passes it
@@ -115,6 +118,8 @@ def h_diff(kind, span, y2c=None, dy=None, micro=True, md2=None, sameday=False):
         # total residual in microseconds
         res = S.add(S.mulc(S.add(S.mulc(S.add(S.mulc(S.add(S.mulc(r.days, 24), r.hours), 60), r.minutes), 60), r.seconds), 1000000),
                     r.microseconds)
+        if kind == "mixed":          # comparisons below need like with like: the date operand as its midnight
+            dt2 = datetime.datetime(dt2.year, dt2.month, dt2.day)
         fwd = dt1 >= dt2
         if fwd:
             ctx.check(S.and_(S.le(0, mtot), S.le(0, res)), "forward difference has a negative part", key="sign")
@@ -177,6 +182,11 @@ def cells(tier):
                 else:
                     if q:
                         cs.append(Cell(M, "h_diff", dict(kind=kind, span=2, y2c=y, dy=dy, micro=True, md2=[3, 15], sameday=True),
+                                       budget_s=280, per_path_s=30))
+                        # a plain date against a datetime (either order is reached through the sign of the difference)
+                        cs.append(Cell(M, "h_diff", dict(kind="mixed", span=2, y2c=y, dy=dy, micro=True, md2=[3, 15], sameday=True),
+                                       budget_s=200, per_path_s=30))
+                        cs.append(Cell(M, "h_diff", dict(kind="mixed", span=2, y2c=y, dy=dy, micro=True, md2=[1, 31]),
                                        budget_s=280, per_path_s=30))
                     for md in (((1, 31), (2, 29)) if q else ((1, 31), (2, 29), (12, 31))):
                         if md == (2, 29) and not ((y % 4 == 0 and y % 100 != 0) or y % 400 == 0):
